@@ -283,3 +283,89 @@ func headerDescriptionOneToken(r *core.Run) {
 	})
 	r.Floor("R-SYM/headerdesc", 1, "walkStatement")
 }
+
+// tagMarksRendered (R-COVER/tagmark): tags and qualifiers of a block header are
+// both TagValues and the parser reads both with popTag, which accepts a
+// leading `!` or `?`. The formatter therefore renders every TagValue of the
+// header through code that writes the mark: an element of a []TagValue list
+// handed to a function whose call tree never reads the mark comes out without
+// it — `a b:!c` becomes `a b:c`, another document.
+func tagMarksRendered(r *core.Run) {
+	r.Rule("R-COVER/tagmark", "in the formatter, inside every loop over a []TagValue field of a BlockHeader, each call that is handed the element reaches (within two levels of same-package callees) a read of the element type's Mark or MarkToken: the mark of a tag or qualifier is written back wherever the parser accepts one")
+	pk := r.P.Pkg(parserRel)
+	if pk == nil {
+		r.Fatal("anchor: package %s not found", parserRel)
+		return
+	}
+	info := pk.TypesInfo
+	readsMark := func(fn *types.Func) bool {
+		fd := core.DeclOf(pk, fn)
+		if fd == nil {
+			return false
+		}
+		hit := false
+		for _, d := range core.TreeDecls(pk, fd, 2) {
+			if d.Body == nil {
+				continue
+			}
+			ast.Inspect(d.Body, func(n ast.Node) bool {
+				if s, ok := n.(*ast.SelectorExpr); ok && (s.Sel.Name == "Mark" || s.Sel.Name == "MarkToken") && strings.HasSuffix(core.TypeStr(info.TypeOf(s.X)), "parser.TagValue") {
+					hit = true
+				}
+				return !hit
+			})
+		}
+		return hit
+	}
+	n := 0
+	core.AllFuncDecls(pk, func(fd *ast.FuncDecl) {
+		if fd.Body == nil || !strings.HasSuffix(r.P.Fset.Position(fd.Pos()).Filename, "fmt.go") && core.RecvName(fd) != "fmter" {
+			return
+		}
+		ast.Inspect(fd.Body, func(nd ast.Node) bool {
+			rs, ok := nd.(*ast.RangeStmt)
+			if !ok {
+				return true
+			}
+			sl, ok := info.TypeOf(rs.X).Underlying().(*types.Slice)
+			if !ok || !strings.HasSuffix(core.TypeStr(sl.Elem()), "parser.TagValue") {
+				return true
+			}
+			val, ok := rs.Value.(*ast.Ident)
+			if !ok {
+				return true
+			}
+			vobj := info.ObjectOf(val)
+			n++
+			o := r.Add("R-COVER/tagmark", parserRel+"."+core.FuncName(fd)+" | marks of "+core.NormExpr(info, rs.X), rs.Pos(), "rendering of "+core.ExprStr(rs.X))
+			var bad *ast.CallExpr
+			used := false
+			ast.Inspect(rs.Body, func(m ast.Node) bool {
+				c, ok := m.(*ast.CallExpr)
+				if !ok {
+					return true
+				}
+				for _, a := range c.Args {
+					if id, ok := core.Unparen(a).(*ast.Ident); ok && info.ObjectOf(id) == vobj {
+						used = true
+						if fn := core.CalleeFunc(info, c); fn == nil || fn.Pkg() != pk.Types || !readsMark(fn.Origin()) {
+							bad = c
+						}
+					}
+				}
+				return true
+			})
+			switch {
+			case bad != nil:
+				o.Pos = r.P.Rel(bad.Pos())
+				o.Fail("the elements are rendered by %s, which never reads their mark: a `!` or `?` the parser accepted in this position is not written back, the formatted file denotes another document", core.ExprStr(bad.Fun))
+			case !used:
+				o.Fail("the elements are not handed to a rendering function in this loop")
+			default:
+				o.Auto("rendered through a function that writes the mark")
+			}
+			return true
+		})
+	})
+	r.Floor("R-COVER/tagmark", 2, "tags and qualifiers in doBlockHeader")
+}
